@@ -111,7 +111,11 @@ def run_lik(case):
             from sklearn.covariance import graphical_lasso
             pen = max(case['glasso_penalty'], 0.05)
             fn = pm.standard_likelihood(shrinkage='glasso', penalty=pen, whitening=W)
-            ref = ref_mvn(W.dot(y), Xw.mean(axis=0), graphical_lasso(Sw, alpha=pen, max_iter=200)[0])
+            try:
+                ref = ref_mvn(W.dot(y), Xw.mean(axis=0), graphical_lasso(Sw, alpha=pen, max_iter=200)[0])
+            except FloatingPointError:
+                # scikit-learn's solver refuses this (too ill-conditioned) covariance: there is no reference value
+                return CaseResult(['variant=' + variant, 'glasso-solver-refused'], None)
             tol = 1e-7
     elif variant == 'warton':
         pen = case['penalty']
@@ -129,7 +133,10 @@ def run_lik(case):
             ref = ref_mvn(y, xm, Sx)
             tol = 1e-6
         else:
-            ref = ref_mvn(y, xm, graphical_lasso(Sx, alpha=pen, max_iter=200)[0])
+            try:
+                ref = ref_mvn(y, xm, graphical_lasso(Sx, alpha=pen, max_iter=200)[0])
+            except FloatingPointError:
+                return CaseResult(['variant=' + variant, 'glasso-solver-refused'], None)
             tol = 1e-7
     elif variant == 'unbiased':
         fn = pm.unbiased_likelihood()
